@@ -223,9 +223,9 @@ def piled(prog, rng, width=None, tabs=None, noise=None, spacing=None):
         if noise and rng.random() < 0.5:
             k = rng.random()
             if k < 0.4: out.append('')
-            elif k < 0.8: out.append(indent(rng.randint(0, 20), tabs) + '-- layout noise')
+            elif k < 0.8: out.append(indent(rng.randint(0, 20), tabs) + rng.choice(['-- layout noise', '-- noise ending in the escape character _', '-- noise _  ']))
             else: out.append(' \t  ')
-        out.append(indent(depth * width, tabs) + text + (rng.choice(['', ' ', '\t', '  -- trailing']) if noise else ''))
+        out.append(indent(depth * width, tabs) + text + (rng.choice(['', ' ', '\t', '  -- trailing', '  -- trailing _', '  -- trailing _ ']) if noise else ''))
     if noise: out.append('-- end')
     return '\n'.join(out) + '\n', {'width': width, 'tabs': tabs, 'noise': noise, 'spacing': spacing}
 
@@ -237,7 +237,7 @@ def braced_variant(prog, rng):
     if rng.random() < 0.5:
         ls = text.split('\n'); out = []
         for l in ls:
-            if rng.random() < 0.3: out.append(rng.choice(['', '-- noise', '   \t']))
+            if rng.random() < 0.3: out.append(rng.choice(['', '-- noise', '   \t', '-- noise _', '-- noise _ ']))
             out.append(l)
         text = '\n'.join(out)
     return text
